@@ -29,9 +29,25 @@ Failing sequences are shrunk and reported with a narrow signature
     read back — `r[pos:pos+size] = v`, then `r[0:size]` — it is the evaluated block expression of route A
     that carries the flag of an intermediate constant (`cst(v<0)` sets it) across what were step boundaries,
     and inside one instruction both routes build the constants themselves.)
-  * a multi-instruction shrunk sequence whose prefix (without the last instruction) already differs in
-    another class is reported under the signature of that prefix's own finding: `mulscc+st:mem` is
-    `mulscc:reg` seen through memory.
+    This family gets ONE signature, `C02:signedness-flag-carried-between-steps` (FAMILY_SCOPE): the flag
+    lives in cas/expressions.py, any ISA whose semantics compare, multiply, divide or shift shows it.
+  * `C02:<isa>:semantics-depend-on-the-map-built-so-far` (one per ISA): the shrunk sequence X…;Y differs, but
+    route A taken in two blocks — (state >> map(X…)) >> map(Y), map(Y) built on an empty mapper — agrees
+    with step by step (split_agrees).  So Y's semantics are right on an empty map and wrong on top of the
+    symbolic map of X…: an operand evaluated twice (fmap(fmap(x)); addr = fmap(a) then fmap[mem(addr)],
+    which mapper.__setitem__ evaluates again) after X… changed a register it mentions, or — mips — the
+    store's address evaluated again after the pending delayed load has landed.  Y is in the case ("culprit").
+  * armv7: `C02:armv7:<write to pc>:interworking-decided-only-when-pc-is-constant` when bit 0 of pc is the
+    difference or the two routes leave `internals["isetstate"]` different (__check_state decides in Python).
+  * attribution of multi-instruction shrunk sequences to simpler findings: the prefix (without the last
+    instruction) already differs in another class -> the prefix's own finding (`mulscc+st:mem` is
+    `mulscc:reg` seen through memory); the last instruction alone differs from another start state, or has
+    a single-instruction finding in this run -> that finding; the routes agree after the prefix and none
+    of the mechanism checks applies -> `C02:<isa>:<last mnemonic>:<class>` (the last instruction alone,
+    from the concrete state the others produce).
+  * a directed phase (1b) pairs every mnemonic Y with an instruction X that writes, from its own old value,
+    a register Y reads, so that the members of the second family are found whatever the seed; phase 1 runs
+    every mnemonic alone from all three states.
 Scope: with noaliasing=True the property is limited to states in which distinct symbolic pointers do not
 overlap; a difference found under noaliasing=True is dropped (and counted) when two accesses of the map
 (one of them a store) with different symbolic bases overlap in the concrete state.
@@ -69,19 +85,22 @@ from amoco.arch import core as acore
 BROKEN = "C02 uniformity of ISA semantics / block map vs step-by-step"
 STORE_LOST_SIG = "C02:noaliasing=True,memtrace=False:stores-not-composed"    # one for all ISAs (see the module docstring)
 SF_SUFFIX = "signedness-flag-carried-between-steps"
-REEVAL_SUFFIX = "semantics-re-evaluate-an-operand-in-the-map-built-so-far"
+REEVAL_SUFFIX = "semantics-depend-on-the-map-built-so-far"
 # Scope of the signatures of the two families that are recognised by a mechanism check (the check is what
 # keeps them narrow).  The signedness-flag family is a defect of the expression layer, not of an instruction:
 # any semantics that compares, multiplies, divides or shifts shows it when an intermediate value has its top
-# bit set; the re-evaluation family is one coding pattern (fmap(fmap(x)), fmap[mem(fmap(a))]) repeated in the
-# functions of an ISA's asm.py.  The sets of mnemonics and classes met keep growing with the seeds, so the
+# bit set; the second family is recognised by what split_agrees() verifies — the same last instruction gives the
+# right result when its map is built on an empty mapper and composed after the prefix's map, the wrong one when
+# it is built on top of the prefix's symbolic map — mostly one coding pattern (fmap(fmap(x)), fmap[mem(fmap(a))]:
+# an operand evaluated twice) repeated in the functions of an ISA's asm.py, sometimes a wrong simplification
+# of the symbolic expression (x86 Jcc after OR: `sf != bit0` becomes `~sf`, the C01 defect).  The sets of mnemonics and classes met keep growing with the seeds, so the
 # default is one signature per ISA; the mnemonic that computed the differing value is in the case ("culprit").
 #   "global": C02:<suffix>     "isa": C02:<isa>:<suffix>     "isa+class": C02:<isa>:<class>:<suffix>
 #   "isa+mnemonic+class": C02:<isa>:<culprit mnemonic>:<class>:<suffix>
 # The signedness flag lives in cas/expressions.py, whatever the ISA (like the store-lost defect lives in the
 # mapper): one global signature.  The re-evaluation pattern lives in each ISA's asm.py: one per ISA.
 FAMILY_SCOPE = {"signedness-flag-carried-between-steps": "global",
-                "semantics-re-evaluate-an-operand-in-the-map-built-so-far": "isa"}
+                "semantics-depend-on-the-map-built-so-far": "isa"}
 ARMV7_PC_SIG = "C02:armv7:<write to pc>:interworking-decided-only-when-pc-is-constant"
 
 
@@ -881,9 +900,11 @@ def _handle_class(ck, ctx, stats, mode, bss, mn, sid, setting, cls, res, allow_s
         note = " (store not recorded in the map: lost by `state >> map`)"
     else:
         # (3) seen through another location: the sequence without its last instruction already differs
+        prefix_clean = False
         if len(cur) > 1 and depth < 3:
             prefix = cur[:-1]
             rp = evaluate(ctx, mode, prefix, [sid], setting)[0]
+            prefix_clean = rp.exc is None and not rp.diffs and not rp.out_of_scope
             if rp.exc is None and rp.diffs:
                 pmn = cmn[:-1]
                 for c2 in sorted(set(x[0] for x in rp.diffs)):
@@ -970,6 +991,13 @@ def _handle_class(ck, ctx, stats, mode, bss, mn, sid, setting, cls, res, allow_s
                 raise
             except Exception:
                 pass
+        if w is None and sig.startswith("C02:%s:%s:" % (ctx.name, "+".join(cmn))) and len(cur) > 1 and prefix_clean:
+            # the routes agree after the prefix, and the last instruction's own map applied to that state does
+            # not give what executing it on that state gives: a single-instruction finding, shown from the
+            # concrete state that the preceding instructions produce
+            sig = "C02:%s:%s:%s%s" % (ctx.name, cmn[-1], cls, setting_suffix(failing))
+            note = " (the routes agree up to the last instruction: it is the last instruction alone, from the state the others produce)"
+            extra = {"culprit": cmn[-1]}
         if w is not None:
             k = culprit_index(ctx, mode, cur, sid, setting, d[4])
             sig = family_signature(ctx.name, cmn[k], cls, SF_SUFFIX)
